@@ -23,6 +23,7 @@ import itertools
 import re
 
 from .. import blockproto
+from .. import tokens as tk
 from ..domains import AbsStr, Cond, AbsInt, install_rx_hooks, _AbsBound
 from ..interp import (AbstractValue, Interp, Oracle, Obj, Unknown, enumerate_paths, Raised, is_abstract,
                       LoopTruncated, ExcVal)
@@ -416,6 +417,116 @@ class JoinedLines(AbstractValue):
         return Unknown('joined.%s' % name)
 
 
+class _ItemBuffer(AbstractValue):
+    """What ListItem.read re-tokenized for one item: a number of blocks and the blank-line flag."""
+
+    def __init__(self, blocks, loose):
+        self.blocks, self.loose = blocks, loose
+
+    def abs_len(self, interp):
+        return self.blocks
+
+    def abs_truth(self, interp):
+        return self.blocks > 0
+
+    def abs_getattr(self, interp, name):
+        if name == 'loose':
+            return self.loose
+        return Unknown('buffer.' + name)
+
+    def abs_setattr(self, interp, name, value):
+        if name == 'loose':
+            self.loose = value
+
+    def abs_is(self, interp, other):
+        return self is other
+
+
+class _ItemOutput(AbstractValue):
+    """ListItem.read's result with the layout the reader itself produces (read off an explored return value):
+    the buffer where it puts the buffer, the marker where it puts the marker."""
+
+    def __init__(self, template, buf, leader):
+        self.items = [buf if isinstance(x, tk.BlockBuffer) else leader if isinstance(x, AbsStr) else x for x in template]
+
+    def abs_getitem(self, interp, idx):
+        return self.items[idx]
+
+    def abs_iter(self, interp):
+        return iter(self.items)
+
+    def abs_len(self, interp):
+        return len(self.items)
+
+
+def rule_last_item_loose(ctx, rep):
+    """The tight/loose computation of a list: an item is loose when a blank line was seen among its blocks. A
+    blank line after the only block of the item that turns out to be the last of its list (because the next
+    item has another marker type, so its line is handed back) separates nothing: List.read, interpreted with
+    scripted results of ListItem.read, must leave the last item loose only if it holds more than one block,
+    and must not touch the flag of the items before it."""
+    from . import c13
+    model = ctx.model
+    rule = 'R-LAST-ITEM-LOOSE'
+    rep.rule(rule, 'a blank line after the only block of a list\'s last item does not make the list loose; other items keep their flag')
+    lst = model.cls('block_token.List')
+    item = model.cls('block_token.ListItem')
+    fw = model.cls('block_tokenizer.FileWrapper')
+    rd = lst.lookup('read')[1]
+    ird = item.lookup('read')[1]
+    template = None
+    for trace, (kind, r, nested, w) in c13.explore_reader(model, item, nlines=3):
+        if kind == 'ret' and isinstance(r, tuple) and len(r) == 2 and isinstance(r[0], tuple) \
+                and sum(isinstance(x, tk.BlockBuffer) for x in r[0]) == 1 and sum(isinstance(x, AbsStr) for x in r[0]) == 1:
+            template = r[0]
+            break
+    if template is None:
+        raise AnalysisError('anchor vanished: ListItem.read does not return ((.. buffer .. marker ..), next marker)')
+    scenarios = [
+        ('a single item: one block, then blank lines', [(1, True, '-')], [False]),
+        ('a single item: two blocks around a blank line', [(2, True, '-')], [True]),
+        ('a single item: two blocks, no blank line', [(2, False, '-')], [False]),
+        ('two items separated by a blank line', [(1, True, '-'), (1, False, '-')], [True, False]),
+        ('two tight items, blank lines after the second', [(1, False, '-'), (1, True, '-')], [False, False]),
+        ('an item, a blank line, an item of another bullet', [(1, True, '-'), (1, True, '+')], [False]),
+        ('an ordered item, a blank line, an item with the other delimiter', [(1, True, '1.'), (1, False, '2)')], [False]),
+        ('an item of two blocks around a blank line, then an item of another bullet', [(2, True, '*'), (1, False, '-')], [True]),
+        ('three items, the middle one followed by a blank line', [(1, False, '1.'), (1, True, '2.'), (3, True, '3.')], [False, True, True]),
+    ]
+    n = 0
+    for what, script, want in scenarios:
+        rep.instance(rule)
+        it = Interp(model, loop_bound=8, while_bound=8)
+        it.reset_run(Oracle())
+        bufs = [_ItemBuffer(b, l) for b, l, _ in script]
+        outs = [_ItemOutput(template, bufs[i], script[i][2]) for i in range(len(script))]
+        calls = []
+
+        def hook(interp, fi, args, kwargs, outs=outs, calls=calls):
+            i = len(calls)
+            calls.append(i)
+            if i >= len(outs):
+                raise Raised(ExcVal('StopIteration', ()))
+            return (outs[i], ('next-marker',) if i + 1 < len(outs) else None)
+        it.func_hooks[ird.qualname] = hook
+        w = it.construct(fw, [[AbsStr(label='line%d' % i) for i in range(4)]], {})
+        try:
+            matches = it.call(it.getattr(lst, 'read'), [w], {})
+            got = [o.items[[isinstance(x, _ItemBuffer) for x in o.items].index(True)].loose for o in it.iterate(matches)] \
+                if not is_abstract(matches) else repr(matches)
+        except Raised as r:
+            got = 'raises %s' % r.exc.kind
+        ok = got == want
+        n += 1
+        rep.obligation(rule, ok, {'scenario': what, 'loose flags': got, 'expected': want})
+        if not ok:
+            rep.find(rule, rd.short, 'scenario:%s' % what,
+                     '%s: the items of the list come out with loose = %s, the rule gives %s (blocks, blank line seen, marker '
+                     'per item: %s)' % (what, got, want, script), loc(model.unit_of(rd), rd.node),
+                     witness='- a\n\n+ b\n')
+    rep.floor(rule, n, 8)
+
+
 def rule_def_account(ctx, rep):
     """Link reference definitions followed directly by other content: Footnote.read joins the lines up to
     the next blank line, scans definitions, and must hand back exactly the lines the definitions did not
@@ -544,6 +655,7 @@ def _branch_of(node, fnode):
 def run(ctx):
     rep = ctx.report
     rule_loose_signal(ctx, rep)
+    rule_last_item_loose(ctx, rep)
     # the cursor protocol the readers' hand-back arithmetic rests on (shared with C13)
     from . import c13
     c13.rule_filewrapper(ctx, rep)
